@@ -42,9 +42,9 @@ theorem collect_exact (ad : Bool) (ti : Option Labels) (ops : List Op) :
   rw [init_c2n, init_targetInfo] at h
   simp only [List.map_nil] at h
   refine ⟨?_, ?_, regsAfter_nodup ops [] _ List.nodup_nil⟩
-  · simp only [collect, collectSpec]
+  · simp only [collect_eq, collectSpec]
     rw [h.2, ← h.1, List.flatMap_map]
-  · simp only [collect]
+  · simp only [collect_eq]
     rw [← h.1, List.map_map]
     rfl
 
@@ -94,7 +94,7 @@ theorem restricted_is_filter {s : State} (hi : Inv s) (hc : ClaimsCover s) (name
   have hrm : restrictTo names = restrictedMetric names := by
     funext f; rw [restricted_metric_spec]
   rw [hrm]
-  simp only [restrictedCollect, collect, List.filterMap_append, List.filterMap_flatMap]
+  simp only [restrictedCollect_eq, collect_eq, List.filterMap_append, List.filterMap_flatMap]
   rw [ti_part]
   apply List.Perm.append_left
   -- the `_EmptyCollector` (selected through `target_info` when target info is configured) yields nothing
